@@ -283,6 +283,20 @@ func crashItems(prop, tier string, scs []*Scenario) []WorkItem {
 	return items
 }
 
+// asProperty runs another property's monitor and files what it reports under this property.
+type asProperty struct {
+	inner Monitor
+	prop  string
+}
+
+func (a asProperty) relabel(x *Exec, from int) {
+	for _, v := range x.Violations[from:] {
+		v.Property = a.prop
+	}
+}
+func (a asProperty) AtState(x *Exec) { n := len(x.Violations); a.inner.AtState(x); a.relabel(x, n) }
+func (a asProperty) AtEnd(x *Exec)   { n := len(x.Violations); a.inner.AtEnd(x); a.relabel(x, n) }
+
 func twoCrashQuick(name string) bool {
 	name = strings.TrimSuffix(strings.TrimSuffix(name, "-aged"), "-live")
 	switch name {
@@ -306,11 +320,23 @@ func init() {
 		Items:       func(tier string) []WorkItem { return crashItems("C09", tier, FamilyCrash(tier)) },
 	})
 	register(&PropDef{
-		ID: "C10", Level: "model_checking", Rule: crashRule + "; the uninterrupted outcome of the same scenario is the differential oracle when every script is constant; cross-validation against a REAL process kill: a child process runs a plan on a file-backed store under strace fault injection (SIGKILL at every write-class system call), a second process recovers it, and the same predicates are evaluated (see notes)",
+		ID: "C10", Level: "model_checking", Rule: crashRule + "; the uninterrupted outcome of the same scenario is the differential oracle when every script is constant; cross-validation against a REAL process kill: a child process runs a plan on a file-backed store under strace fault injection (SIGKILL at every write-class system call), a second process recovers it, and the same predicates are evaluated (see notes); plus stores with two to four plans Running at once, stale ones among live ones",
 		Assumptions: []string{"process death only: the durable state is Create plus a prefix of the completed single-row updates (no torn pages, no power loss)", "64-runner pool, I/O granularity", "plan outcome = status and failure reason of the plan"},
-		NewMon:      func(sc *Scenario) Monitor { return monC10{} },
+		NewMon: func(sc *Scenario) Monitor {
+			if len(sc.BootStates) > 0 {
+				return asProperty{inner: monC11{}, prop: "C10"} // several Running plans found at start-up: all live ones resumed, no hang
+			}
+			return monC10{}
+		},
 		Items: func(tier string) []WorkItem {
-			return append(crashItems("C10", tier, FamilyCrash(tier)), realKillItems(tier)...)
+			items := append(crashItems("C10", tier, FamilyCrash(tier)), realKillItems(tier)...)
+			// several plans Running at the crash (more than the store has connections; stale ones among live ones)
+			for _, sc := range FamilyBoot(tier) {
+				if strings.HasPrefix(sc.Name, "boot-many-") {
+					items = append(items, explore("C10", sc, 1, false))
+				}
+			}
+			return items
 		},
 		Enum: enumRealKill,
 	})
